@@ -22,6 +22,7 @@ of steps, any schedule and any input — not merely up to a step bound.
 """
 from __future__ import annotations
 
+import os
 import time
 from collections import defaultdict
 
@@ -33,6 +34,35 @@ from .sem import KINDS, bv
 from .bmc import Encoding, node_label
 
 WILD = None
+PAR = max(1, int(os.environ.get('VERIF_SOLVER_PAR', '8')))
+
+
+def fork_map(fn, items):
+    """Run fn(i) for every item in a forked child process (the z3 terms built so far are shared
+    copy-on-write); returns the JSON-able results in order."""
+    import json as _json
+    procs = []
+    for it in items:
+        r, w = os.pipe()
+        pid = os.fork()
+        if pid == 0:
+            os.close(r)
+            try:
+                res = fn(it)
+            except BaseException as e:  # noqa
+                res = {'result': 'unknown', 'solver_s': 0.0, 'error': f'{type(e).__name__}: {e}'}
+            with os.fdopen(w, 'w') as f:
+                f.write(_json.dumps(res))
+            os._exit(0)
+        os.close(w)
+        procs.append((pid, r))
+    out = []
+    for pid, r in procs:
+        with os.fdopen(r) as f:
+            data = f.read()
+        os.waitpid(pid, 0)
+        out.append(_json.loads(data) if data else {'result': 'unknown', 'solver_s': 0.0, 'error': 'no answer'})
+    return out
 
 
 class Reduced:
@@ -356,18 +386,53 @@ class Inductive:
         if r != 'unsat':
             out['result'] = 'unknown'
             return out
-        # consecution
-        r, m = run('consecution', Rpre, enc.trans, enc.sel != enc.IDLE, z3.Not(Rpost))
-        if r == 'sat':
-            pre = self.read_state(m, enc.pre)
-            post = self.read_state(m, enc.post)
-            j = m.eval(enc.sel, model_completion=True).as_long()
-            out['state'], out['post'], out['action'] = pre, post, j
-            t, prims, edges = self.p.actions[j]
-            fr = self.p.auts[t].frontier
-            out['result'] = 'frontier' if post['pcs'][self.p.threads.index(t)] == fr else 'not-closed'
+        # consecution, split over the pre-state set and run in forked processes when R is large
+        keys = list(self.red.states)
+        nchunk = max(1, min(PAR, len(keys) // 1500))
+        if nchunk == 1:
+            r, m = run('consecution', Rpre, enc.trans, enc.sel != enc.IDLE, z3.Not(Rpost))
+            if r == 'sat':
+                return self._cons_cex(out, self.read_state(m, enc.pre), self.read_state(m, enc.post),
+                                      m.eval(enc.sel, model_completion=True).as_long())
+            out['result'] = 'inductive-safe' if r == 'unsat' else 'unknown'
             return out
-        out['result'] = 'inductive-safe' if r == 'unsat' else 'unknown'
+        vs = [(enc.pre[n], w) for n, w in self.cols] + [(v, v.size()) for _, v in self.icols]
+        chunks = [keys[i::nchunk] for i in range(nchunk)]
+
+        def work(i):
+            Ri = Trie(vs).build([self.tuple_of(k) for k in chunks[i]])
+            s = self.solver(timeout_s)
+            s.add(Ri, enc.trans, enc.sel != enc.IDLE, z3.Not(Rpost))
+            t1 = time.time()
+            r = str(s.check())
+            res = {'result': r, 'solver_s': round(time.time() - t1, 2)}
+            if r == 'sat':
+                m = s.model()
+                res['pre'] = self.read_state(m, enc.pre)
+                res['post'] = self.read_state(m, enc.post)
+                res['action'] = m.eval(enc.sel, model_completion=True).as_long()
+            return res
+
+        t1 = time.time()
+        results = fork_map(work, range(nchunk))
+        q = {'query': 'consecution', 'chunks': nchunk, 'solver_s': round(sum(r_['solver_s'] for r_ in results), 2),
+             'wall_s': round(time.time() - t1, 2)}
+        if any(r_['result'] == 'sat' for r_ in results):
+            q['result'] = 'sat'
+            out['queries'].append(q)
+            r_ = next(r_ for r_ in results if r_['result'] == 'sat')
+            fix = lambda d: {'pcs': tuple(d['pcs']), 'vals': tuple(d['vals']), 'ins': tuple(d['ins'])}  # noqa
+            return self._cons_cex(out, fix(r_['pre']), fix(r_['post']), r_['action'])
+        q['result'] = 'unsat' if all(r_['result'] == 'unsat' for r_ in results) else 'unknown'
+        out['queries'].append(q)
+        out['result'] = 'inductive-safe' if q['result'] == 'unsat' else 'unknown'
+        return out
+
+    def _cons_cex(self, out, pre, post, j):
+        out['state'], out['post'], out['action'] = pre, post, j
+        t, prims, edges = self.p.actions[j]
+        fr = self.p.auts[t].frontier
+        out['result'] = 'frontier' if post['pcs'][self.p.threads.index(t)] == fr else 'not-closed'
         return out
 
     def doomed(self, accept=None):
@@ -399,14 +464,25 @@ class Inductive:
                 rows_n.append(tuple(row) + (dist[k], e.act))
         vs_pre = [(enc.pre[n], w) for n, w in self.cols] + [(v, v.size()) for _, v in self.icols]
         vs_post = [(enc.post[n], w) for n, w in self.cols] + [(v, v.size()) for _, v in self.icols]
-        Rn = Trie(vs_pre + [(d, DW), (enc.sel, enc.SW)]).build(rows_n)
         Rd = Trie(vs_post + [(d2, DW)]).build(rows_d)
         enabled = z3.Or([z3.And(enc.sel == j, enc.en[j]) for j in range(enc.A)])
-        s = self.solver(timeout_s)
-        s.add(Rn, z3.Or(z3.Not(enabled), z3.And(enc.trans, Rd, z3.UGE(d2, d))))
+        nchunk = max(1, min(PAR, len(rows_n) // 1500))
+        chunks = [rows_n[i::nchunk] for i in range(nchunk)]
+
+        def work(i):
+            Rn = Trie(vs_pre + [(d, DW), (enc.sel, enc.SW)]).build(chunks[i])
+            s = self.solver(timeout_s)
+            s.add(Rn, z3.Or(z3.Not(enabled), z3.And(enc.trans, Rd, z3.UGE(d2, d))))
+            t1 = time.time()
+            r = str(s.check())
+            return {'result': r, 'solver_s': round(time.time() - t1, 2)}
+
         t1 = time.time()
-        r = str(s.check())
-        return {'query': 'progress', 'result': r, 'solver_s': round(time.time() - t1, 2),
+        results = [work(0)] if nchunk == 1 else fork_map(work, range(nchunk))
+        r = 'unsat' if all(x['result'] == 'unsat' for x in results) else (
+            'sat' if any(x['result'] == 'sat' for x in results) else 'unknown')
+        return {'query': 'progress', 'result': r, 'chunks': nchunk,
+                'solver_s': round(sum(x['solver_s'] for x in results), 2), 'wall_s': round(time.time() - t1, 2),
                 'max_rank': int(max(dist.values()))}
 
     def witness(self, timeout_s=300):
